@@ -210,7 +210,7 @@ func execMain(env Env, args []string) int {
 			break
 		}
 	}
-	if err := os.WriteFile(*out, JSONBytes(eo), 0o644); err != nil {
+	if err := os.WriteFile(*out, JSONBytes(eo), 0644); err != nil {
 		fmt.Fprintln(os.Stderr, err)
 		return 2
 	}
@@ -227,7 +227,7 @@ func runPlansFresh(plans []*Plan, gomaxprocs int) (res []*PlanResult, died bool,
 	defer os.RemoveAll(dir)
 	in := filepath.Join(dir, "in.json")
 	out := filepath.Join(dir, "out.json")
-	if err := os.WriteFile(in, JSONBytes(execInput{Plans: plans}), 0o644); err != nil {
+	if err := os.WriteFile(in, JSONBytes(execInput{Plans: plans}), 0644); err != nil {
 		infra("%v", err)
 	}
 	cmd := exec.Command(os.Getenv("DST_NODE"), "exec", "-in", in, "-out", out)
